@@ -308,6 +308,9 @@ class Recorder:
             state=getattr(kwargs.get("state"), "id", None),
         )
         if v == "raise":
+            if not kwargs and len(self.log) % 2 == 0:
+                # a property guard: AttributeError is the one exception that getattr()/hasattr() swallow
+                raise VALIDATOR_VARIANTS[2](gid)
             raise self._validator_class()(gid)
         return v
 
